@@ -57,10 +57,19 @@ def _check(ctx, lib, c, d):
         return ctypes.c_void_p((ctypes.addressof(buf) + 63) & ~63)
     raw = {k: S(sz) for k, sz in (("params", 2 * g2sz), ("msk", 32), ("id", g1a), ("sk", g1a), ("ct", g2a), ("id2", g1a), ("sk2", g1a), ("msk2", 32), ("hash", 48))}
     P = {k: aligned(v) for k, v in raw.items()}
-    lib.set_random(c["stream"], c["seed"])
+    def drawn(stream, seed):
+        # the exponent the decomposed-exponent sampler (decided by C07/C10) draws first from this stream; the source is re-armed
+        lib.set_random(stream, seed)
+        lib.B.fill(0xCD, 32)
+        lib.fn("vf_px_random", None)(lib.O.ptr, lib.B.ptr)
+        y = conv.ib(lib.B.read(32))
+        lib.set_random(stream, seed)
+        return y
+    s_drawn = drawn(c["stream"], c["seed"])
     if c["via"] == "setup":
         d.vf_lq_setup(P["params"], P["msk"])
         s = conv.ib(ctypes.string_at(P["msk"], 32))
+        expect(s == s_drawn, "lqibe_setup/randomiser", lambda: "master scalar %x is not the value drawn first from the random source (%x)" % (s, s_drawn))
         pimg = ctypes.string_at(P["params"], 2 * g2sz)
         Pp, sP = conv.b_g2_proj(pimg[:g2sz]), conv.b_g2_proj(pimg[g2sz:])
         expect(s < R, "lqibe_setup/msk-range", lambda: "master scalar %x >= r" % s)
@@ -92,11 +101,15 @@ def _check(ctx, lib, c, d):
     a1, a2 = aligned(sym1), aligned(sym2)
     off1 = a1.value - ctypes.addressof(sym1)
     off2 = a2.value - ctypes.addressof(sym2)
+    r_drawn = drawn(c["stream"][::-1] + b"e", c["seed"] ^ 0x77)
     d.vf_lq_encrypt(P["ct"], a1, ctypes.c_size_t(n), P["params"], P["id"])
     h_enc = lib.hash_last()
     out1 = sym1.raw[off1:off1 + n + 32]
     ctimg = ctypes.string_at(P["ct"], g2a)
     rp = conv.b_g2_aff(lib, ctimg)
+    # the ciphertext is [r]P for exactly the r drawn from the caller's random source (a missing, constant, truncated or uninitialised
+    # encryption exponent still decrypts consistently, but is not this point)
+    expect(rp == C.mul(Pp, r_drawn, C.G2Ops), "lqibe_encrypt/randomiser", lambda: "ciphertext != [r]P for the r drawn first from the random source (r=%x)" % r_drawn)
     # expected hash input from public values
     qc = c09.lib_encode(lib, 1, Qid, True)[0]
     rpc = c09.lib_encode(lib, 2, rp, True)[0]
